@@ -308,6 +308,83 @@ theorem operations_stay_valid (o n : SchemaD) (h : diffSchema o n 2 = []) (wo : 
     simp only [Bool.and_eq_true] at this ⊢
     exact ⟨isComposite_kept o n h wn f.on this.1, selsOk_kept o n h wo wn doc vars f.on f.sels this.2⟩
 
+/-! ### positions: arguments of interface fields and of directives (object fields and input fields are in
+    `C20_diff.lean` / `C20_nobreaking.lean`) -/
+
+private theorem absurd_of_breaking {o n : SchemaD} (h : diffSchema o n 2 = []) {c : Change}
+    (hc : c ∈ diffSchema o n 0) (hs : 2 ≤ c.severity) : False := by
+  have := reported_at_severity o n c 2 hc hs
+  rw [h] at this; exact absurd this (List.not_mem_nil)
+
+private theorem sev_ge_req (c : String) (k : List (String × String)) (h : sev c true = 2) : 2 ≤ (mk c k true).severity := by
+  rw [show (mk c k true).severity = sev c true from rfl, h]; exact Nat.le_refl 2
+
+/-- **Arguments of object AND interface fields**: with no BREAKING change every argument of a kept field is
+    kept, accepts every value it accepted before, and no required argument is added. -/
+theorem nobreaking_field_arguments_any (o n : SchemaD) (h : diffSchema o n 2 = []) (ot nt : TypeD)
+    (hp : FieldHost o n ot nt) (f g : FieldD) (hf : f ∈ ot.fields) (hg : nt.fields.find? (·.name == f.name) = some g) :
+    (∀ a ∈ f.args, ∃ b, g.args.find? (·.name == a.name) = some b ∧ InCompat a.type b.type)
+    ∧ (∀ b ∈ g.args, f.args.find? (·.name == b.name) = none → ArgD.required b = false) := by
+  constructor
+  · intro a ha
+    cases hb : g.args.find? (·.name == a.name) with
+    | none => exact (absurd_of_breaking h (removed_argument_reported o n ot nt f g a hp hf hg ha hb) (sev_ge _ _ (by decide))).elim
+    | some b =>
+      refine ⟨b, rfl, safeIn_sound _ _ ?_⟩
+      cases hs : safeIn a.type b.type with
+      | true => rfl
+      | false => exact (absurd_of_breaking h (retyped_argument_reported o n ot nt f g a b hp hf hg ha hb hs) (sev_ge _ _ (by decide))).elim
+  · intro b hb hnew
+    cases hr : ArgD.required b with
+    | false => rfl
+    | true =>
+      have := added_argument_reported o n ot nt f g b hp hf hg hb hnew
+      rw [hr] at this
+      exact (absurd_of_breaking h this (sev_ge_req _ _ (by decide))).elim
+
+/-- **Output positions of object AND interface fields** — PARTIAL like `nobreaking_fields_strict_partial`
+    (list-free types; the list-item case is finding G1). -/
+theorem nobreaking_fields_strict_any_partial (o n : SchemaD) (h : diffSchema o n 2 = []) (ot nt : TypeD)
+    (hp : FieldHost o n ot nt) (f g : FieldD) (hf : f ∈ ot.fields) (hg : nt.fields.find? (·.name == f.name) = some g)
+    (wf : f.type.wf = true) (wg : g.type.wf = true) (lf : listFree f.type = true) (lg : listFree g.type = true) :
+    OutCompat f.type g.type := by
+  apply (safeOut_iff_partial f.type g.type wf wg lf lg).mp
+  cases hs : safeOut f.type g.type with
+  | true => rfl
+  | false => exact (absurd_of_breaking h (retyped_field_reported_any o n ot nt f g hp hf hg hs) (sev_ge _ _ (by decide))).elim
+
+/-- **Directives**: with no BREAKING change every directive is kept with all its locations, every argument is
+    kept and accepts every value it accepted before, and no required argument is added (directive applications
+    in operations stay valid). -/
+theorem nobreaking_directives (o n : SchemaD) (h : diffSchema o n 2 = []) (d : DirectiveD) (hd : d ∈ o.directives) :
+    ∃ e, n.directives.find? (·.name == d.name) = some e
+      ∧ (∀ l ∈ d.locations, l ∈ e.locations)
+      ∧ (∀ a ∈ d.args, ∃ b, e.args.find? (·.name == a.name) = some b ∧ InCompat a.type b.type)
+      ∧ (∀ b ∈ e.args, d.args.find? (·.name == b.name) = none → ArgD.required b = false) := by
+  cases he : n.directives.find? (·.name == d.name) with
+  | none => exact (absurd_of_breaking h (removed_directive_reported o n d hd he) (sev_ge _ _ (by decide))).elim
+  | some e =>
+    refine ⟨e, rfl, ?_, ?_, ?_⟩
+    · intro l hl
+      by_cases hm : l ∈ e.locations
+      · exact hm
+      · exact (absurd_of_breaking h (removed_location_reported o n d e l hd he hl hm) (sev_ge _ _ (by decide))).elim
+    · intro a ha
+      cases hb : e.args.find? (·.name == a.name) with
+      | none => exact (absurd_of_breaking h (removed_directive_argument_reported o n d e a hd he ha hb) (sev_ge _ _ (by decide))).elim
+      | some b =>
+        refine ⟨b, rfl, safeIn_sound _ _ ?_⟩
+        cases hs : safeIn a.type b.type with
+        | true => rfl
+        | false => exact (absurd_of_breaking h (retyped_directive_argument_reported o n d e a b hd he ha hb hs) (sev_ge _ _ (by decide))).elim
+    · intro b hb hnew
+      cases hr : ArgD.required b with
+      | false => rfl
+      | true =>
+        have := added_directive_argument_reported o n d e b hd he hb hnew
+        rw [hr] at this
+        exact (absurd_of_breaking h this (sev_ge_req _ _ (by decide))).elim
+
 /-! ### non-vacuity: a concrete compatible evolution and a document that uses fragments and abstract types -/
 
 private def exOld : SchemaD :=
